@@ -358,7 +358,9 @@ def check_case(case, ctx):
                 drv.dispatcher, drv.instance, drv.model = clone, clone.instance, m
                 disturb(original, original_model, inst, 3)
                 ctx.label("forked")
-                check_all(f"deep copy taken after {m.count()} dispatches, the original having gone on")
+                if not (huge and episode == 0 and m.count() == 0):
+                    # (same exemption as "after construction" above)
+                    check_all(f"deep copy taken after {m.count()} dispatches, the original having gone on")
             else:  # (not reached: every observer of the case is subscribed)
                 m = original_model
         read_only_consumers()
